@@ -530,7 +530,7 @@ pub fn placement_of(arch: Arch, placement: u64) -> Placement {
             // the kernel text mapping in the upper canonical half on amd64, 2^39 on MIPS64
             let (b, stack): (u64, u64) = match arch {
                 Arch::X86 | Arch::Arm => (0x8000_0000, 0x9000_0000),
-                Arch::Mips32 => (0x4000_0000, 0x5000_0000),
+                Arch::Mips32 => (0x8000_0000, 0x9000_0000),
                 Arch::Amd64 => (0xffff_ffff_8000_0000, 0xffff_c900_0000_0000),
                 Arch::Arm64 | Arch::Arm64Old => (1 << 47, (1 << 47) - 0x1000_0000),
                 Arch::Mips64 => (1 << 39, (1 << 39) + 0x1000_0000),
